@@ -177,6 +177,7 @@ package keeper
 //@                KVhas[k.skey] == old(KVhas)[k.skey][bidKeyOf(bid.BidID) := true]
 //@                && KVval[k.skey] == old(KVval)[k.skey][bidKeyOf(bid.BidID) := encode(upd(bid, State, types.BidClosed))]
 //@                && EvN == old(EvN) + 1 && EvLog == old(EvLog)[old(EvN) := sigBid(2, bid.BidID, bid.Price)]
+//@   ensures [others] forall sk: iface :: sk != mktEscrowSKey() && sk != k.skey ==> KVhas[sk] == old(KVhas)[sk] && KVval[sk] == old(KVval)[sk]
 //@ func (Keeper).OnOrderClosed
 //@   modifies ghost KVhas, ghost KVval, ghost G, ghost EvN, ghost EvLog
 //@   ensures [noop] order.State == types.OrderClosed ==> KVhas == old(KVhas) && KVval == old(KVval) && EvN == old(EvN) && EvLog == old(EvLog)
